@@ -296,6 +296,13 @@ func (fs *realFS) ModKey(path string) (ModKey, error) {
 			}
 		} else if data.state == stateFileNeedModKey {
 			data.state = stateFileHasModKey
+		} else if data.state == stateDirUnreadable && err == nil {
+			// Note: If "ReadDirectory" is called before "ModKey" with this same
+			// path, then "data.state" will be "stateDirUnreadable". The caller may
+			// not call "ReadFile" afterward if the file is already cached, so the
+			// transition to a file state must also happen here. Otherwise later
+			// changes to this file would never be detected in watch mode.
+			data.state = stateFileHasModKey
 		}
 		data.modKey = key
 		fs.watchData[path] = data
